@@ -55,6 +55,14 @@ Fixpoint write_all (start ext pos nn : v3) (size : Z) (ws : list (Z * Z)) (a : a
    above it the model predicts std::bad_alloc / std::length_error *)
 Definition max_alloc : Z := 268435456.
 
+(* the re-indexing loop of setup(): allocate `full` (nn points, default value), store file voxel k at its
+   new index; the result is the new data vector *)
+Definition reindex (start ext pos nn : v3) (dflt : Z) (data : list Z) : res (list Z) :=
+  let size := point_count nn in
+  if size >? max_alloc then Exc else
+  bind (write_all start ext pos nn size (combine (zseq 0 (loop_count ext)) data) aempty)
+       (fun full => Ok (to_list full dflt size)).
+
 (* pre-checks added by the repair of the reader (see Properties_C03): none in the original code *)
 Definition setup_checks (h : hdr) (n : v3) (smode : Z) : bool := true.
 
@@ -77,11 +85,7 @@ Definition setup_core (h : hdr) (g : grid) (dflt smode : Z) : res (hdr * grid * 
     let nn := if reorder then (sel n (sel pos 0), sel n (sel pos 1), sel n (sel pos 2)) else sampl in
     let h' := mkHdr nn (h_mode h) hstart sampl (1, 2, 3) (h_ispg h) (h_nsymbt h) in
     let ao' := if v3_eq0 hstart && v3_eqb sampl nn then 1 else 0 in
-    let size := point_count nn in
-    if size >? max_alloc then Exc else
-    let cnt := loop_count n in
-    bind (write_all start' n pos nn size (combine (zseq 0 cnt) (g_data g)) aempty) (fun full =>
-      let data' := to_list full dflt size in
+    bind (reindex start' n pos nn dflt (g_data g)) (fun data' =>
       let part := (sel n (sel pos 0) <? sel sampl 0) || (sel n (sel pos 1) <? sel sampl 1)
                   || (sel n (sel pos 2) <? sel sampl 2) in
       Ok (h', mkGrid nn ao' data', (smode =? 0) && part))).
